@@ -114,6 +114,21 @@ def prim (v : View) : List String → String
           toString v'.x1 ++ " " ++ toString v'.y1 ++ " " ++ showBool v'.absolute
       | .error e => "err " ++ toString e
     | _ => "bad-op"
+  | ["viewa", a, b, c, d, ab, f, bd] =>
+    -- VIEW with attribute values (`n` = omitted): a rejected statement reports the viewport it leaves in force
+    match ints [a, b, c, d, ab], parseBound f, parseBound bd with
+    | some [a, b, c, d, ab], some f, some bd =>
+      let s : Screen := ⟨false, 1, 0, 0, v, fun _ _ _ => 0⟩
+      let r := viewExec s 1 a b c d (ab != 0) f bd
+      let showView (v' : View) := " view " ++ toString v'.x0 ++ " " ++ toString v'.y0 ++ " " ++
+          toString v'.x1 ++ " " ++ toString v'.y1 ++ " " ++ showBool v'.absolute
+      match r.2 with
+      | some e => "err " ++ toString e ++ showView r.1.view
+      | none =>
+        match viewStmt v a b c d (ab != 0) f.isSome bd.isSome with
+        | .ok (ops, v') => reply v.unset ops ++ showView v'
+        | .error e => "err " ++ toString e ++ showView v
+    | _, _, _ => "bad-op"
   | _ => "bad-op"
 
 /-- `prim W H x0 y0 x1 y1 abs <op> <args…>` -/
